@@ -118,7 +118,7 @@ fn def(prop: &str, tier: u8) -> Option<Def> {
         "C19" => Def {
             memcheck: mc,
             parts: vec![("path", fam_path::total(prop, tier))],
-            clauses: vec!["ctrl_explored_in_region", "ctrl_not_subset", "ctrl_lost_outside_region", "ctrl_region_not_marked", "max_branches", "max_permutations", "max_duration", "max_threads", "path_repeat", "path_not_dfs", "path_order", "unexpected_panic"],
+            clauses: vec!["ctrl_explored_in_region", "ctrl_not_subset", "ctrl_lost_outside_region", "ctrl_region_not_marked", "ctrl_skip_restarted", "max_branches", "max_permutations", "max_duration", "max_threads", "path_repeat", "path_not_dfs", "path_order", "unexpected_panic"],
             rule: "each program is run unrestricted and with six placements of stop_exploring/explore/skip_branch/expect_explicit_explore, with max_branches = longest path - 1 / exactly the longest path, eight (max_permutations, checkpoint interval) pairs around the exact iteration count, max_duration 0 and 1 h; non-trivial = >= 2 iterations and longest path >= 2",
             trusted: path_trusted.clone(),
             assumptions: vec!["equality with the unrestricted result set is only demanded for regions that provably contain no decision with two alternatives (DESIGN §5-C19)", "wall clock is used only through the two extreme durations"],
